@@ -224,6 +224,7 @@ type transform struct {
 	tx, ty float64
 	name   string
 	pow    float64 // exact power-of-two rescaling applied last (0 = none)
+	negz   bool    // write every zero coordinate as -0 (compares equal to +0; bit pattern differs)
 }
 
 func (tr transform) pt(p orb.Point) orb.Point {
@@ -231,6 +232,13 @@ func (tr transform) pt(p orb.Point) orb.Point {
 	if tr.pow != 0 {
 		q[0] *= tr.pow
 		q[1] *= tr.pow
+	}
+	if tr.negz {
+		for i := range q {
+			if q[i] == 0 {
+				q[i] = math.Copysign(0, -1)
+			}
+		}
 	}
 	return q
 }
@@ -249,7 +257,7 @@ func (tr transform) box(b orb.Bound) orb.Bound {
 // two and (half-)integers so that lattice coincidences survive bit-exactly.
 func drawTransform(g *stream, exact bool) transform {
 	t := g.t
-	tr := transform{1, 0, 0, "identity", 0}
+	tr := transform{1, 0, 0, "identity", 0, false}
 	switch mode := rapid.IntRange(0, 9).Draw(t, "tr"); {
 	case mode <= 3:
 	case mode <= 6:
@@ -263,7 +271,7 @@ func drawTransform(g *stream, exact bool) transform {
 		}
 		s := scales[rapid.IntRange(0, len(scales)-1).Draw(t, "trs")]
 		sh := shifts[rapid.IntRange(0, len(shifts)-1).Draw(t, "trt")]
-		tr = transform{s, sh[0], sh[1], fmt.Sprintf("scale %g shift (%g,%g)", s, sh[0], sh[1]), 0}
+		tr = transform{s, sh[0], sh[1], fmt.Sprintf("scale %g shift (%g,%g)", s, sh[0], sh[1]), 0, false}
 	default:
 		// a small box (side about 1..100) far from the origin (offsets up to 2e7): the web-mercator tile
 		// situation. exact: power-of-two scale and integer offsets, so that lattice coincidences survive.
@@ -273,8 +281,13 @@ func drawTransform(g *stream, exact bool) transform {
 			s = float64(int(1) << uint(rapid.IntRange(0, 4).Draw(t, "farpow")))
 			tx, ty = math.Round(tx), math.Round(ty)
 		}
-		tr = transform{s, tx, ty, "far from the origin", 0}
+		tr = transform{s, tx, ty, "far from the origin", 0, false}
 		stats.Class("transform:small box far from the origin (offsets up to 2e7)")
+	}
+	if rapid.IntRange(0, 3).Draw(t, "negative zero") == 0 {
+		tr.negz = true
+		tr.name += " zeros as -0"
+		stats.Class("transform:zero coordinates written as -0")
 	}
 	// exact power-of-two rescaling of everything (ring, box, query points): verdicts must not depend on
 	// the unit of length
